@@ -52,6 +52,22 @@ CHECKS["C12"] = ("other", "call-graph rule (one-shot reader built from the four 
                  "Structural: the two APIs run the same code, nothing is short-read sensitive, bytes consumed equal bytes accounted as linear expressions, the frame count is monotone.",
                  "byteorder/read_exact consume exactly their width/buffer length on success", "3 C12")
 
+CHECKS["C01"] = ("other", "E2 sibling agreement of reader/writer/size gate trees over 25 version classes; symbolic emission/size polynomial agreement between the writer's byte count and PayloadSizes::raw_size; frame-bracketing typestate per version class; raw-block capture and splitter rules",
+                 "Structural necessary clauses: any single-site break of field order/width/endianness/gate, of the declared raw length, of the emitted-vs-declared event table or of frame bracketing is reported for every version at once; round-trip equality as such is not decided.",
+                 "byteorder read/write inverse on all bit patterns; arrow2 stores values bit-exactly; gecko blob is a whole number of 512-byte blocks", "3 C01")
+CHECKS["C02"] = ("other", "E2 positional import/export agreement (L4/L5) for all structs and containers; writer-entry/reader-arm agreement incl. optionality and null handling; carried-field dataflow (hash, quirks, compression)",
+                 "Structural; known findings F1 (3.0-3.6 export panics) and F3 (zero-frame .slpp unreadable) outstanding. Arrow IPC/LZ4/ZSTD byte equality is library semantics.",
+                 "arrow2 IPC round-trips arrays under every compression; tar round-trips entries", "3 C02")
+CHECKS["C04"] = ("other", "E2 column balance; path-sensitive frame-bracketing typestate over version classes; dataflow rules for the port table, padding loop, presence bit and item offsets; who-may-call rule for the event readers",
+                 "Structural necessary clauses that keep columns aligned; the dynamic behaviour of the state machine over unbounded histories is not decided.",
+                 "arrow2 push appends exactly one element", "3 C04")
+CHECKS["C05"] = ("other", "cursor-program interpretation of game_start/player/game_end into (offset, width, type, destination, tail) segments compared with the spec table; derived-Serialize body analysis for JSON omission",
+                 "Offsets half is proof-shaped (every mapped field, gap and length class compared with the spec); JSON half decides which fields are rendered/omitted, not serde's value rendering.",
+                 "byteorder big-endian reads; serde derive renders values faithfully; spec/start_spec.json transcribes SPEC.md", "3 C05")
+CHECKS["C17"] = ("other", "symbolic polynomial agreement between emitted bytes and declared raw length; table-vs-emission agreement per version class; canonical emission order; unknown-path effect analysis",
+                 "Structural: declared length = emitted length for every version class and presence combination, the reader accepts every event the writer emits, dropped content is never stored.",
+                 "byteorder writes emit their width; gecko blob is a whole number of blocks", "3 C17")
+
 PENDING = {}
 
 NOT_APPLICABLE = {
